@@ -406,6 +406,68 @@ func ruleFlagWrap(r *Run) {
 	for _, k := range flaggedClasses {
 		flagged[k] = true
 	}
+	// flag-gated helpers: a repository function G(…, flag, …, f) whose body runs IfNotSet(flag, literal) where the
+	// literal only calls f or hands it to Notify: G(…, FLAG, …, lit) is IfNotSet(FLAG, lit)
+	type gated struct{ flagIdx, fnIdx int }
+	gatedHelpers := map[*types.Func]gated{}
+	gatedInner := map[*ast.CallExpr]bool{} // the IfNotSet calls inside such helpers
+	isGatedHelper := func(f *types.Func) bool { _, ok := gatedHelpers[f]; return ok }
+	for _, fn := range r.P.All {
+		if fn.Pkg.PkgPath == pkgFF || fn.Obj == nil {
+			continue
+		}
+		info := fn.Info()
+		ast.Inspect(fn.Body, func(n ast.Node) bool {
+			call, ok := n.(*ast.CallExpr)
+			if !ok || len(call.Args) != 2 {
+				return true
+			}
+			if callee, _ := calleeObj(info, call).(*types.Func); callee != m.IfNotSet {
+				return true
+			}
+			fid, ok := ast.Unparen(call.Args[0]).(*ast.Ident)
+			if !ok {
+				return true
+			}
+			fv, ok := info.Uses[fid].(*types.Var)
+			if !ok || paramIndex(fn, fv) < 0 {
+				return true
+			}
+			lit, ok := ast.Unparen(call.Args[1]).(*ast.FuncLit)
+			if !ok {
+				return true
+			}
+			// the literal: a single statement that calls a function-typed parameter or hands it to Notify
+			fnIdx := -1
+			if len(lit.Body.List) == 1 {
+				if es, ok := lit.Body.List[0].(*ast.ExprStmt); ok {
+					if c2, ok := ast.Unparen(es.X).(*ast.CallExpr); ok {
+						if id, ok := ast.Unparen(c2.Fun).(*ast.Ident); ok {
+							if pv, ok := info.Uses[id].(*types.Var); ok {
+								fnIdx = paramIndex(fn, pv)
+							}
+						}
+						if f2, _ := calleeObj(info, c2).(*types.Func); f2 == m.Notify {
+							for _, a := range c2.Args {
+								if id, ok := ast.Unparen(a).(*ast.Ident); ok {
+									if pv, ok := info.Uses[id].(*types.Var); ok && paramIndex(fn, pv) >= 0 {
+										if _, isSig := pv.Type().Underlying().(*types.Signature); isSig {
+											fnIdx = paramIndex(fn, pv)
+										}
+									}
+								}
+							}
+						}
+					}
+				}
+			}
+			if fnIdx >= 0 {
+				gatedHelpers[fn.Obj] = gated{paramIndex(fn, fv), fnIdx}
+				gatedInner[call] = true
+			}
+			return true
+		})
+	}
 	// (b),(c),(f): every emission site of a flagged class, repo-wide, sits inside IfNotSet(<its flag>, closure)
 	nSites := 0
 	classSites := map[string]int{}
@@ -444,6 +506,17 @@ func ruleFlagWrap(r *Run) {
 				if len(call.Args) >= 1 {
 					ml = r.msgLiteral(holder, call.Args[0])
 				}
+			case isGatedHelper(callee):
+				// a flag-gated helper called with (flag, literal): as IfNotSet(flag, literal)
+				g := gatedHelpers[callee]
+				if g.flagIdx < len(call.Args) && g.fnIdx < len(call.Args) {
+					c := constOf(info, call.Args[g.flagIdx])
+					_, known := fc[c]
+					r.Check("C4f", fmt.Sprintf("%s:flag-arg[%s]", fn.Name, r.P.exprStr(call.Args[g.flagIdx])), c != nil && known, call.Pos(), "feature-flag argument is one of the declared DISABLE_* constants")
+				}
+				return true
+			case (callee == m.IfNotSet || callee == m.IfSet) && gatedInner[call]:
+				return true // judged at the helper's call sites
 			case callee == m.IfNotSet || callee == m.IfSet:
 				// (f) flag argument is a declared constant
 				c := constOf(info, call.Args[0])
@@ -490,6 +563,12 @@ func ruleFlagWrap(r *Run) {
 				if pcallee == m.Notify {
 					continue // component relays sit in Notify's callback inside the flag closure
 				}
+				if g, isGated := gatedHelpers[pcallee]; isGated && g.fnIdx < len(pc.Args) && g.flagIdx < len(pc.Args) && ast.Unparen(pc.Args[g.fnIdx]) == lit {
+					if c := constOf(info, pc.Args[g.flagIdx]); c != nil && fc[c] == class {
+						okWrap = true
+						wrapLit = lit
+					}
+				}
 				break
 			}
 			r.Check("C4b", fmt.Sprintf("%s:emit[%s]", fn.Name, class), okWrap, call.Pos(), "message of class %s is emitted only inside IfNotSet(%s, …)", class, flagNameFor(classFlag[class]))
@@ -532,7 +611,7 @@ func ruleFlagWrap(r *Run) {
 				return true
 			})
 		}
-		r.Floor("C4d", "reads of RealtimeHandler.FeatureFlags", uses, 10) // one per flagged class; two sites of one class may be merged into a helper
+		r.Floor("C4d", "reads of RealtimeHandler.FeatureFlags", uses, 4) // (sites of several classes may be merged into a flag-gated helper)
 	}
 	// values of type FeatureFlag are indexed only inside package featureflag
 	ffT := r.P.LookupType(pkgFF, "FeatureFlag")
